@@ -8,6 +8,7 @@ func runR_C01(c *Ctx) {
 	rR3(c, ps...)
 	rGenerating(c, ps...)
 	rHelperArity(c, ps...)
+	rUnusedTypeString(c, ps...)
 	rR4(c, ps...)
 }
 
